@@ -7,7 +7,9 @@ import (
 	"strings"
 
 	"github.com/syndtr/goleveldb/leveldb"
+	"github.com/syndtr/goleveldb/leveldb/iterator"
 	"github.com/syndtr/goleveldb/leveldb/opt"
+	"github.com/syndtr/goleveldb/leveldb/util"
 )
 
 // Abstract disk for the LevelDB backend (DESIGN.md table 1.5):
@@ -40,6 +42,7 @@ var (
 	FaultBudget int // how many injected failures are still allowed on this path
 	FaultLog    []string
 	GetFaults   bool // Db.Get / Db.Has may fail with an I/O error
+	CloseFaults bool // Db.Close may fail (fault budget)
 	ReadFault   error
 )
 
@@ -49,12 +52,14 @@ func InstallDisk() {
 	Effects, CrashAt, FaultBudget = 0, -1, 0
 	FaultLog = nil
 	GetFaults = false
+	CloseFaults = false
 	ReadFault = NewError("leveldb: injected read I/O error")
 	Override("github.com/syndtr/goleveldb/leveldb.OpenFile", dmOpenFile)
 	Override("(*github.com/syndtr/goleveldb/leveldb.DB).Put", dmPut)
 	Override("(*github.com/syndtr/goleveldb/leveldb.DB).Get", dmGet)
 	Override("(*github.com/syndtr/goleveldb/leveldb.DB).Has", dmHas)
 	Override("(*github.com/syndtr/goleveldb/leveldb.DB).Close", dmClose)
+	Override("(*github.com/syndtr/goleveldb/leveldb.DB).NewIterator", dmNewIterator)
 	Override("os.MkdirAll", dmMkdirAll)
 	Override("os.Mkdir", dmMkdir)
 	Override("os.Rename", dmRename)
@@ -76,6 +81,21 @@ func effect(what string) bool {
 		return true
 	}
 	Effects++
+	return false
+}
+
+// effectNoCount: like effect for calls that change nothing durable (they are no crash points)
+func effectNoCount(what string) bool {
+	for _, f := range FaultLog {
+		if f == what {
+			return true
+		}
+	}
+	if FaultBudget > 0 && NondetBool("fault") {
+		FaultBudget--
+		FaultLog = append(FaultLog, what)
+		return true
+	}
 	return false
 }
 
@@ -172,6 +192,9 @@ func dmClose(db *leveldb.DB) error {
 	st := dbs[db]
 	if st.closed {
 		return leveldb.ErrClosed
+	}
+	if CloseFaults && effectNoCount("close "+st.path) {
+		return NewError("leveldb: injected close failure (pending compaction error)")
 	}
 	st.closed = true
 	if d := Disk[st.path]; d != nil {
@@ -379,3 +402,53 @@ func InstallDirListing() {
 	Override("os.SameFile", dmSameFile)
 	Override("path/filepath.Walk", dmWalk)
 }
+
+// ---- iterators ----
+
+type dmIter struct {
+	kv  []KV
+	pos int
+	err error
+}
+
+func dmNewIterator(db *leveldb.DB, slice *util.Range, ro *opt.ReadOptions) iterator.Iterator {
+	st := dbs[db]
+	it := &dmIter{pos: -1}
+	if st.closed {
+		it.err = leveldb.ErrClosed
+		return it
+	}
+	it.kv = append(it.kv, Disk[st.path].KV...)
+	return it
+}
+
+func (i *dmIter) First() bool  { i.pos = 0; return i.Valid() }
+func (i *dmIter) Last() bool   { i.pos = len(i.kv) - 1; return i.Valid() }
+func (i *dmIter) Next() bool   { i.pos++; return i.Valid() }
+func (i *dmIter) Prev() bool   { i.pos--; return i.Valid() }
+func (i *dmIter) Valid() bool  { return i.err == nil && i.pos >= 0 && i.pos < len(i.kv) }
+func (i *dmIter) Error() error { return i.err }
+func (i *dmIter) Key() []byte {
+	if !i.Valid() {
+		return nil
+	}
+	return i.kv[i.pos].K
+}
+func (i *dmIter) Value() []byte {
+	if !i.Valid() {
+		return nil
+	}
+	return i.kv[i.pos].V
+}
+func (i *dmIter) Seek(key []byte) bool {
+	for k := range i.kv {
+		if BytesEqual(i.kv[k].K, key) {
+			i.pos = k
+			return true
+		}
+	}
+	i.pos = len(i.kv)
+	return false
+}
+func (i *dmIter) Release()                      {}
+func (i *dmIter) SetReleaser(r util.Releaser) {}
